@@ -55,13 +55,13 @@ CLAIMED = {
          'Trusts the reference walker; -sorted is given; an empty files0 list is not compared with no operands.', 'DESIGN.md §3 C18'),
  'C16': ('property-based testing + bounded-exhaustive enumeration: format strings generated from the statement\'s grammar rendered by find on a tree of every creatable type x starting-point spellings x follow modes vs an independent renderer; identity checks (%p == -print, %H/%P recomposition, %y/%Y vs -type/-xtype)',
          'Exploration: every format of <= 2 (thorough 3) components over a 31-component alphabet plus tens of thousands of random formats (escapes, %%, 15 directives with flag and width, multi-byte literals) on entries of all types under -P/-H/-L and eleven spellings of the starting point, through -printf and -fprintf; output equals the independent rendering byte for byte.',
-         'Reference renderer written from the statement over std::fs metadata; padding asserted on ASCII values; %f/%h left open where the last component / the part before it is not in normal form; one known finding (%H below a starting point not in normal form) excluded by construction and probed by the identities sub-run.', 'DESIGN.md §3 C16'),
+         'Reference renderer written from the statement over std::fs metadata; padding asserted on ASCII values; %f/%h left open where the last component / the part before it is not in normal form.', 'DESIGN.md §3 C16'),
  'C12': ('differential property-based testing + bounded-exhaustive enumeration against glibc fnmatch(3) (character-level, through transliteration of non-ASCII characters): the matcher behind -name/-path/-lname via a verif-hooks entry point, and end to end on real files and link targets',
          'Exploration: every pattern of <= 4 (thorough 5) symbols over {a b * ? [ ] ! - \\ . /} x every subject of <= 4 symbols over {a b . / - ] NL} in both case modes (~87 million pairs), plus random patterns with classes, ranges, escapes, every regex metacharacter as a literal and multi-byte text against matching-by-construction subjects and their one-edit neighbours, plus find -name/-iname/-path/-ipath/-wholename/-lname/-ilname on files and link targets named by the subjects.',
          'glibc fnmatch is the oracle on the compared domain; constructs POSIX leaves unspecified or where glibc deviates (listed in the evidence as discarded_outside_domain with counts) are not compared; a trailing lone backslash is judged by the statement directly.', 'DESIGN.md §3 C12'),
  'C17': ('property-based testing + bounded-exhaustive enumeration: regex ASTs rendered into each supported syntax vs an independent set-of-end-positions matcher over the AST (whole-path membership); subjects generated from the AST (members, prefixes, extensions); hook tier and end-to-end tier with positional -regextype',
          'Exploration: every AST of <= 4 (thorough 5) nodes x every subject of <= 4 symbols x four syntaxes x both case modes (alternatives also reversed), hundreds of thousands of random ASTs (sets, ranges, intervals, alternation with prefix-sharing branches, literal + and ?) in six syntax names, and tens of thousands of find runs on files named by the subjects with -regextype before / inside / after parentheses or given twice.',
-         'The oracle decides membership of the entire path in the language of the AST; only constructs each syntax documents are rendered; nullable loop bodies and more than two nested unbounded repetitions are not generated at random (engine retry limit).', 'DESIGN.md §3 C17'),
+         'The oracle decides membership of the entire path in the language of the AST; only constructs each syntax documents are rendered; nullable loop bodies and more than two nested unbounded repetitions are not generated at random; one known finding (the regex engine gives up on exponentially ambiguous patterns: such members are reported as not matching) is tolerated by its exact signature and probed deterministically.', 'DESIGN.md §3 C17'),
  'C11': ('property-based testing + bounded-exhaustive enumeration: token sequences classified by a reference recogniser (non-sentences must be rejected before any effect: stdout, recorder log, file-system snapshot), a table of invalid operands embedded in expressions with -print/-delete/-exec, and random argument vectors with hostile operands over a tree of odd entries for panic freedom (in process with catch_unwind and through the binary)',
          'Exploration: every sequence of <= 4 (thorough 5) units over a 15-unit alphabet, thousands of mutated valid expressions, ~200 invalid operands x 5 positions, 27 deterministic probes and tens of thousands of random vectors (multi-byte text after % and \\, huge numbers, stray brackets, unmapped owners, entries deleted earlier in the same expression); rejection happens with a diagnostic, non-zero status and no effect; no panic/abort.',
          'One-directional (valid sentences are C01). Trusts the reference recogniser (DESIGN.md appendix A). A hang is only observable as the watchdog (exit 2). One known finding (the regex engine accepts an unterminated bracket expression).', 'DESIGN.md §3 C11'),
